@@ -4,6 +4,7 @@ import Hive.Proofs.TypedConc
 import Hive.Proofs.TypedCounter
 import Hive.Proofs.TypedGate
 import Hive.Proofs.TypedLin
+import Hive.Proofs.TypedLive
 import Hive.Gen.C06_Skel
 import Hive.Proofs.TypedCode
 import Hive.Proofs.TypedUpgrade
@@ -472,6 +473,28 @@ theorem C06_serialised_judge (init : Nat) (ops : List GOp) (final : Nat) :
     (serialOk init ops final = true → ∃ l, l.Perm ops ∧ replayG init l = some final) ∧
     (replayG init ops = some final → serialOk init ops final = true) :=
   ⟨serialOk_sound init ops final, serialOk_complete init ops final⟩
+
+/-- **No deadlock.**  For any number of goroutines and any scripts of method calls (`reopen` is not a method of the
+shared object), in every reachable configuration of the protocol model — hence, by `C06_code_serialised`, of the protocol
+over the translated fast and slow parts — in which some goroutine still has a call to make or to finish, some goroutine
+can take a step: the holder of the write lock, else a holder of the read lock, else anybody (nobody holds a lock).  In
+particular the `RUnlock` → `Lock` upgrade of `Get` / `Has` cannot block the object: a reader never waits for the write
+lock while it holds the read lock. -/
+theorem C06_no_deadlock (C : Codec V) (s0 : St V) (scripts : List (List (Op V × Faults)))
+    (hm : ∀ sc ∈ scripts, ∀ x ∈ sc, isMethod x.1 = true) (c : Cfg (Shared V) (Thread V))
+    (hr : Reach (sys C) (init s0, scripts.map Conc.start) c) (hu : ∃ t ∈ c.2, t.script ≠ []) :
+    ∃ t ∈ c.2, (sys C).step c.1 t ≠ [] :=
+  no_deadlock C s0 scripts hm hr hu
+
+/-- The hypothesis is satisfiable (scripts of methods), and it is needed: a thread whose next "call" is `reopen` is stuck
+by construction. -/
+example : (∀ sc ∈ [[((.get : Op Nat), ({} : Faults)), (.has, {})], [(.set 1, {}), (.delete, {})]], ∀ x ∈ sc, isMethod x.1 = true) ∧
+    tstep ({ enc := fun _ => none, dec := fun _ => none } : Codec Nat) (init (fresh none)) (Conc.start [((.reopen : Op Nat), ({} : Faults))]) = [] := by
+  refine ⟨?_, by simp [tstep, Conc.start, isMethod]⟩
+  intro sc hsc x hx
+  simp only [List.mem_cons, List.mem_nil_iff, or_false] at hsc
+  rcases hsc with rfl | rfl <;> simp only [List.mem_cons, List.mem_nil_iff, or_false] at hx <;>
+    rcases hx with rfl | rfl <;> rfl
 
 /-- **The linearizability judge of the free-running histories** (`conc lin …` lines: every call of a small concurrent
 history with the logical times of its invocation and return).  Sound: it accepts only if some order of *all* calls
